@@ -325,7 +325,24 @@ class GrammarGen:
             for k in range(r.randrange(1, 4)):
                 self.nl(p, depth + 1)
                 self.mark(p, depth + 1, "arm")
-                self.emit(p, "%d: " % k + self.simple_stmt() + ";")
+                lc = r.random()
+                if lc < 0.5:
+                    labels = "%d" % k
+                elif lc < 0.7:
+                    labels = "%d..%d" % (10 * k, 10 * k + 5)
+                else:
+                    # several labels: the label list can wrap while `begin` still has to find its place
+                    labels = ", ".join(r.choice(["tk", "cs", "vk"]) + r.choice(IDENTS) + "x" * r.randrange(0, 8) for _ in range(r.randrange(2, 6)))
+                if r.random() < 0.35 and nest < self.max_depth:
+                    self.emit(p, labels + ": ")
+                    self.mark(p, depth + 1, "ctlbegin")
+                    self.emit(p, "begin")
+                    self.stmt_list(p, depth + 2, nest + 1)
+                    self.nl(p, depth + 1)
+                    self.mark(p, depth + 1, "closer")
+                    self.emit(p, "end;")
+                else:
+                    self.emit(p, labels + ": " + self.simple_stmt() + ";")
             if r.random() < 0.5:
                 self.nl(p, depth)
                 self.mark(p, depth, "closer")
@@ -377,9 +394,193 @@ class GrammarGen:
         self.mark(p, depth, "closer")
         self.emit(p, "end;")
 
+    # ---- declarations: classes / records / interfaces with visibility sections and nested sections,
+    # global sections between routine implementations, constructors / destructors / class methods,
+    # initialization / finalization / exports.  Every "section followed by X" combination can occur.
+    def method_header(self, owner=None, kinds=None):
+        r = self.rng
+        k = r.choice(kinds or ["procedure", "function", "constructor", "destructor", "class procedure", "class function", "procedure", "function"])
+        name = (owner + "." if owner else "") + r.choice(["Create", "Destroy", "Run", "Bar", "Baz", "GetItem", "Update"])
+        params = "; ".join(r.choice(["", "const ", "var "]) + self.ident() + ": " + r.choice(TYPES) for _ in range(r.randrange(0, 3)))
+        ps = "(" + params + ")" if params or r.random() < 0.2 else ""
+        if k.endswith("function"):
+            return k, f"{k} {name}{ps}: {r.choice(TYPES)};"
+        return k, f"{k} {name}{ps};"
+
+    def nested_section(self, p, depth):
+        r = self.rng
+        kind = r.choice(["const", "var", "class var", "type", "threadvar", "const", "var"])
+        self.nl(p, depth)
+        self.mark(p, depth, "section")
+        self.emit(p, kind)
+        for _ in range(r.randrange(1, 3)):
+            self.nl(p, depth + 1)
+            self.mark(p, depth + 1, "member")
+            if kind == "const":
+                self.emit(p, self.ident() + " = " + self.expr(2) + ";")
+            elif kind == "type":
+                self.emit(p, "T" + self.ident() + " = " + r.choice(["Integer", "array of string", "set of Byte", "TList<Integer>"]) + ";")
+            else:
+                self.emit(p, self.ident() + ": " + r.choice(TYPES) + ";")
+
+    def member(self, p, depth, allow, prev=None):
+        """prev = kind of the previous member of the same block: a bare field directly after a nested
+        section would belong to that section (and is not valid Delphi after const/type), so none is emitted"""
+        r = self.rng
+        c = r.random()
+        if c < 0.3 and "field" in allow and prev != "section":
+            self.nl(p, depth)
+            self.mark(p, depth, "member")
+            self.emit(p, "F" + self.ident() + ": " + r.choice(TYPES) + ";")
+            return "field"
+        if c < 0.5 and "section" in allow:
+            self.nested_section(p, depth)
+            return "section"
+        if c < 0.6 and "property" in allow:
+            self.nl(p, depth)
+            self.mark(p, depth, "member")
+            self.emit(p, r.choice(["", "class "]) + "property " + self.ident() + ": " + r.choice(TYPES) + " read F" + self.ident() + r.choice(["", " write F" + self.ident()]) + ";")
+            return "property"
+        self.nl(p, depth)
+        self.mark(p, depth, "member")
+        _, h = self.method_header(kinds=allow.get("methods"))
+        self.emit(p, h + r.choice(["", " virtual;", " override;", " static;", " overload;"]))
+        return "method"
+
+    def struct_decl(self, p, depth):
+        """TName = class|record|interface ... end;  members one level deeper, visibility keywords at the
+        level of the declaration, members under a visibility keyword two levels deeper"""
+        r = self.rng
+        kind = r.choice(["class", "class", "record", "interface", "object"])
+        self.nl(p, depth)
+        self.mark(p, depth, "member")
+        head = {"class": r.choice(["class", "class(TObject)", "class(TBase, IFoo)", "class sealed", "class abstract"]), "record": r.choice(["record", "packed record"]),
+                "interface": r.choice(["interface", "interface(IUnknown)"]), "object": "object"}[kind]
+        self.emit(p, "T" + self.ident() + " = " + head)
+        allow = {"field": 1, "section": 1, "property": 1}
+        if kind == "interface":
+            allow = {"property": 1, "methods": ["procedure", "function"]}
+        if kind == "record":
+            allow = {"field": 1, "section": 1, "property": 1, "methods": ["procedure", "function", "constructor", "class procedure", "class function"]}
+        if kind in ("class", "object", "record") and r.random() < 0.7:
+            last = None
+            for _ in range(r.randrange(0, 3)):
+                last = self.member(p, depth + 1, allow, last)   # before any visibility keyword
+            for _ in range(r.randrange(1, 4)):
+                self.nl(p, depth)
+                self.mark(p, depth, "section")
+                self.emit(p, r.choice(["private", "protected", "public", "published", "strict private", "strict protected"]))
+                last = None
+                for _ in range(r.randrange(0, 4)):
+                    last = self.member(p, depth + 1, allow, last)
+        else:
+            last = None
+            for _ in range(r.randrange(1, 5)):
+                last = self.member(p, depth + 1, allow, last)
+        self.nl(p, depth)
+        self.mark(p, depth, "closer")
+        self.emit(p, "end;")
+
+    def type_section(self, p, depth):
+        r = self.rng
+        self.nl(p, depth)
+        self.mark(p, depth, "section")
+        self.emit(p, "type")
+        for _ in range(r.randrange(1, 4)):
+            if r.random() < 0.7:
+                self.struct_decl(p, depth + 1)
+            else:
+                self.nl(p, depth + 1)
+                self.mark(p, depth + 1, "member")
+                self.emit(p, "T" + self.ident() + " = " + r.choice(["Integer", "array of string", "^TFoo", "set of Byte", "(a, b, c)", "procedure(A: Integer) of object", "reference to function: Integer"]) + ";")
+
+    def global_section(self, p, depth):
+        r = self.rng
+        kind = r.choice(["var", "const", "type", "resourcestring", "threadvar", "var", "const"])
+        if kind == "type":
+            self.type_section(p, depth)
+            return
+        self.nl(p, depth)
+        self.mark(p, depth, "section")
+        self.emit(p, kind)
+        for _ in range(r.randrange(1, 3)):
+            self.nl(p, depth + 1)
+            self.mark(p, depth + 1, "member")
+            if kind == "const":
+                self.emit(p, self.ident() + r.choice(["", ": Integer"]) + " = " + self.expr(2) + ";")
+            elif kind == "resourcestring":
+                self.emit(p, "S" + self.ident() + " = 's%d';" % r.randrange(100))
+            else:
+                self.emit(p, self.ident() + ": " + r.choice(TYPES) + ";")
+
+    def method_impl(self, p, depth):
+        r = self.rng
+        self.nl(p, depth)
+        self.mark(p, depth, "routine")
+        _, h = self.method_header(owner=r.choice(["TFoo", "TBar", None]))
+        self.emit(p, h)
+        self.decls(p, depth)
+        self.nl(p, depth)
+        self.mark(p, depth, "closer")
+        if r.random() < 0.12:
+            # assembler body (its instruction lines are verbatim and carry no marks)
+            self.emit(p, "asm")
+            self.emit(p, "\n" + "  " * (depth + 1) + "mov eax, 1\n" + "  " * (depth + 1) + "ret")
+        else:
+            self.emit(p, "begin")
+            self.stmt_list(p, depth + 1, 1)
+        self.nl(p, depth)
+        self.mark(p, depth, "closer")
+        self.emit(p, "end;")
+
+    def unit_program(self):
+        p = Prog()
+        r = self.rng
+        self.emit(p, "unit " + self.ident() + ";\n\ninterface\n")
+        if r.random() < 0.5:
+            self.emit(p, "\nuses\n  SysUtils, Classes;\n")
+        for _ in range(r.randrange(0, 3)):
+            c = r.random()
+            if c < 0.6:
+                self.type_section(p, 0)
+            elif c < 0.85:
+                self.global_section(p, 0)
+            else:
+                self.nl(p, 0)
+                self.mark(p, 0, "routine")
+                self.emit(p, self.method_header(kinds=["procedure", "function"])[1])
+            self.emit(p, "\n")
+        self.emit(p, "\nimplementation\n")
+        for _ in range(r.randrange(1, 5)):
+            if r.random() < 0.45:
+                self.global_section(p, 0)
+            else:
+                self.method_impl(p, 0)
+            self.emit(p, "\n")
+        c = r.random()
+        if c < 0.25:
+            self.nl(p, 0)
+            self.mark(p, 0, "section")
+            self.emit(p, "exports")
+            self.nl(p, 1)
+            self.mark(p, 1, "member")
+            self.emit(p, self.ident() + ";\n")
+        if c < 0.6:
+            for kw in (["initialization", "finalization"] if r.random() < 0.6 else ["initialization"]):
+                self.nl(p, 0)
+                self.mark(p, 0, "section")
+                self.emit(p, kw)
+                self.stmt_list(p, 1, 2)
+        self.emit(p, "\n")
+        self.mark(p, 0, "closer")
+        self.emit(p, "end.\n")
+        return p
+
     def program(self):
         p = Prog()
         r = self.rng
+        if r.random() < 0.35:
+            return self.unit_program()
         if r.random() < 0.5:
             self.emit(p, "unit " + self.ident() + ";\n\ninterface\n\nimplementation\n")
         else:
@@ -394,3 +595,54 @@ class GrammarGen:
 
 def grammar_program(rng):
     return GrammarGen(rng).program()
+
+
+def line_comment(rng):
+    """a `//` comment exploring the decision space of comment_contents.rs: doc slashes, separator lines
+    (>= 10 identical non-alphanumeric characters) around the length boundary, alphanumeric and non-ASCII
+    repetitions, missing space after the slashes, trailing blanks of every kind (ASCII whitespace,
+    VT/FF, U+3000) — including blanks that pad a short run up to the separator length"""
+    prefix = rng.choice(["//", "//", "//", "///", "////"])
+    k = rng.random()
+    if k < 0.4:
+        ch = rng.choice(["-", "=", "*", "#", "~", "+", "_", "/", "!", ".", "x", "1", "\u00e9", "\u2500", "\u3000", "\x0b"])
+        body = ch * rng.choice([1, 2, 5, 8, 9, 9, 10, 10, 11, 12, 20])
+    elif k < 0.5:
+        body = "".join(rng.choice("-=") for _ in range(rng.choice([9, 10, 12])))
+    elif k < 0.6:
+        body = rng.choice([" ", "  ", "\t"]) + rng.choice(["note", "----------", "x"])
+    else:
+        body = rng.choice(["x", "note", "TODO: fix", "é", "1.2", "-- section --", ""])
+    trailing = rng.choice(["", "", "", " ", "  ", "   ", "\t", " \t ", "\u3000", "\x0b", " \x0b", "\x0c", "\u3000 "])
+    return prefix + body + trailing
+
+
+def case_labels_program(rng):
+    """a routine whose case statement has arms with SEVERAL labels followed by `begin` (the label list can
+    wrap while `begin` continues the last label's line) or by a simple statement; returns (text, header
+    line lengths) so that callers can choose wrap columns next to them"""
+    depth = rng.randrange(1, 4)
+    ind = "  " * depth
+    lines = ["procedure Classify(Kind: TKind);", "begin"]
+    for d in range(1, depth):
+        lines.append("  " * d + rng.choice(["if Ready then begin", "while Busy do begin", "for I := 0 to N do begin"]))
+    lines.append(ind + "case " + rng.choice(["Kind", "Token.Kind", "GetKind(Current)"]) + " of")
+    lens = []
+    for _ in range(rng.randrange(2, 5)):
+        labels = ", ".join(rng.choice(["tk", "cs", "vk"]) + rng.choice(["Identifier", "Keyword", "Number", "String", "Comment", "Blank", "Op", "Eof"]) + "x" * rng.randrange(0, 5)
+                           for _ in range(rng.randrange(1, 6)))
+        if rng.random() < 0.65:
+            hdr = ind + "  " + labels + ": begin"
+            lines.append(hdr)
+            for _ in range(rng.randrange(1, 3)):
+                lines.append(ind + "    " + rng.choice(["HandleWord;", "Advance;", "Count := Count + 1;", "Skip(Current, Next);"]))
+            lines.append(ind + "  end;")
+        else:
+            hdr = ind + "  " + labels + ": " + rng.choice(["Skip;", "Handle(Current);"])
+            lines.append(hdr)
+        lens.append(len(hdr))
+    lines.append(ind + "end;")
+    for d in range(depth - 1, 0, -1):
+        lines.append("  " * d + "end;")
+    lines.append("end;")
+    return "\n".join(lines) + "\n", lens
